@@ -123,6 +123,37 @@ ACCESSORS = {
 }
 
 
+def _range_test_problems(cls, fi, key, mname):
+    problems = []
+    if mname in ("__getitem__", "__delitem__"):
+        # positions are the list's business: a hand-written range test on the integer key must be exactly -n <= key < n
+        scope_ = [(fi, key)]
+        for call_ in walk_shallow(fi.node):
+            # a private helper of the class that is handed the key (`self._position(key)`)
+            if isinstance(call_, ast.Call) and isinstance(call_.func, ast.Attribute) and isinstance(call_.func.value, ast.Name) \
+                    and call_.func.value.id == "self" and call_.func.attr.startswith("_") and not call_.func.attr.startswith("__") \
+                    and len(call_.args) == 1 and isinstance(call_.args[0], ast.Name) and call_.args[0].id == key:
+                hm = cls.find_method(call_.func.attr)
+                if hm is not None and len(hm.params()) == 2:
+                    scope_.append((hm, hm.params()[1]))
+        for c_, key_ in [(c_, k_) for f_, k_ in scope_ for c_ in walk_shallow(f_.node)]:
+            key__outer = key
+            key = key_
+            if isinstance(c_, ast.Compare) and any(isinstance(x, ast.Name) and x.id == key for x in [c_.left] + c_.comparators) \
+                    and any("len(" in ast.unparse(x) or (isinstance(x, ast.Name) and x.id in ("size", "n", "length")) or isinstance(x, ast.UnaryOp)
+                            for x in [c_.left] + c_.comparators) and all(isinstance(o, (ast.Lt, ast.LtE, ast.Gt, ast.GtE)) for o in c_.ops):
+                txt = ast.unparse(c_)
+                exact = (len(c_.ops) == 2 and isinstance(c_.ops[0], ast.LtE) and isinstance(c_.ops[1], ast.Lt)
+                         and isinstance(c_.left, ast.UnaryOp) and isinstance(c_.left.op, ast.USub)
+                         and ast.unparse(c_.left.operand) == ast.unparse(c_.comparators[1]) and isinstance(c_.comparators[0], ast.Name)
+                         and c_.comparators[0].id == key)
+                if not exact:
+                    problems.append((c_, "the range test `%s` on an integer key is not the list's own `-len <= key < len`: a position the "
+                                         "list accepts (such as -len(s)) is rejected, or one it rejects is accepted" % txt))
+            key = key__outer
+    return problems
+
+
 def rule_accessors(ctx):
     p = ctx.p
     cls = p.cls(SI)
@@ -137,7 +168,7 @@ def rule_accessors(ctx):
         site = "%s#lookup" % fi.qual
         rels = _relations(fi, key, elems)
         cmp_rels = [r for r in rels if r[0] == "compare"]
-        problems = []
+        problems = list(_range_test_problems(cls, fi, key, mname))
         # census of key<->item relations
         for kind, node, args in rels:
             if kind == "raw":
@@ -317,6 +348,33 @@ def rule_accessors(ctx):
                 problems.append("does not assign through self[%s] = ..." % key)
         elif not any(isinstance(s.ctx, ast.Load) for s in subs):
             problems.append("does not fetch the item through self[%s]" % key)
+        if mname == "get":
+            # add=True appends exactly one item and only for a key that is missing: every append in get() is on the not-in-self side
+            # of the membership test
+            cfg_g = build_cfg(p, fi)
+            cd_g = ControlDependence(cfg_g)
+            for nd in cfg_g.nodes:
+                if nd.ast is None or nd.kind != "stmt":
+                    continue
+                for c_ in walk_expr_shallow(nd.ast):
+                    if isinstance(c_, ast.Call) and isinstance(c_.func, ast.Attribute) and c_.func.attr in ("append", "insert", "extend") \
+                            and isinstance(c_.func.value, ast.Name) and c_.func.value.id == "self":
+                        under = False
+                        for (tn, lab) in cd_g.transitive(nd.id):
+                            t_ = cfg_g.nodes[tn].ast
+                            if cfg_g.nodes[tn].kind != "test":
+                                continue
+                            pol = lab.startswith("true")
+                            while isinstance(t_, ast.UnaryOp) and isinstance(t_.op, ast.Not):
+                                t_, pol = t_.operand, not pol
+                            if isinstance(t_, ast.Compare) and len(t_.ops) == 1 and isinstance(t_.left, ast.Name) and t_.left.id == key \
+                                    and isinstance(t_.comparators[0], ast.Name) and t_.comparators[0].id == "self":
+                                if (isinstance(t_.ops[0], ast.In) and not pol) or (isinstance(t_.ops[0], ast.NotIn) and pol):
+                                    under = True
+                        if not under:
+                            problems.append("`%s` is not confined to a key that is missing (`%s not in self`): get(k, add=True) on an existing "
+                                            "key appends the item a second time, the suffixes are renumbered and `k in s` turns false" % (
+                                                unparse(c_), key))
         # the delegation must not be restricted by further tests on the key (other than the list of plain attributes)
         if mname in ("__getattr__",):
             for s_ in walk_shallow(fi.node):
@@ -648,23 +706,34 @@ def rule_suffix_algo(ctx):
             for g in sub.generators:
                 if "self" in {n.id for n in ast.walk(g.iter) if isinstance(n, ast.Name)}:
                     elems |= set(target_names(g.target))
+    # flat form: `names = [tm]` / `names = {i.useful_mnemonic for i in self}`; `for m in names:` - m is the mnemonic under test
+    tms = {tm}
+    flat_all = False
+    for lp_ in [x for x in walk_shallow(fi.node) if isinstance(x, ast.For) and isinstance(x.target, ast.Name) and isinstance(x.iter, ast.Name)]:
+        srcs = [a_.value for a_ in walk_shallow(fi.node) if isinstance(a_, ast.Assign) and any(isinstance(t_, ast.Name) and t_.id == lp_.iter.id for t_ in a_.targets)]
+        one = [v for v in srcs if isinstance(v, (ast.List, ast.Tuple)) and len(v.elts) == 1 and isinstance(v.elts[0], ast.Name) and v.elts[0].id == tm]
+        every = [v for v in srcs if isinstance(v, (ast.SetComp, ast.ListComp)) and "useful_mnemonic" in ast.unparse(v.elt)
+                 and any("self" in {n.id for n in ast.walk(g.iter) if isinstance(n, ast.Name)} for g in v.generators)]
+        if srcs and len(one) + len(every) == len(srcs) and one:
+            tms.add(lp_.target.id)
+            flat_all = bool(every)
     # 1. the only use of the test mnemonic in a comparison is mnemonic_compare(item.useful_mnemonic, test_mnemonic)
     cmp_ok = 0
     for sub in walk_shallow(fi.node):
         if isinstance(sub, ast.Call) and isinstance(sub.func, ast.Attribute) and sub.func.attr == "mnemonic_compare":
             args = [ast.unparse(a) for a in sub.args]
-            if len(args) == 2 and tm in args and any(a == e + ".useful_mnemonic" for a in args for e in elems):
+            if len(args) == 2 and (set(args) & tms) and any(a == e + ".useful_mnemonic" for a in args for e in elems):
                 cmp_ok += 1
             else:
                 problems.append((sub, "duplicates are detected with mnemonic_compare(%s); it must compare "
                                       "item.useful_mnemonic with the mnemonic under test" % ", ".join(args)))
         elif isinstance(sub, ast.Compare):
             names = {n.id for n in ast.walk(sub) if isinstance(n, ast.Name)}
-            if tm in names and not (len(sub.ops) == 1 and isinstance(sub.ops[0], (ast.Is, ast.IsNot))):
+            if (tms & names) and not (len(sub.ops) == 1 and isinstance(sub.ops[0], (ast.Is, ast.IsNot))):
                 problems.append((sub, "`%s` compares the mnemonic under test directly, bypassing mnemonic_compare (case "
                                       "variants in a case-normalised section are missed)" % unparse(sub)))
         elif isinstance(sub, ast.Call) and isinstance(sub.func, ast.Attribute) and sub.func.attr in ("count", "index"):
-            if any(isinstance(n, ast.Name) and n.id == tm for a in sub.args for n in ast.walk(a)):
+            if any(isinstance(n, ast.Name) and n.id in tms for a in sub.args for n in ast.walk(a)):
                 problems.append((sub, "`%s` counts exact matches of the mnemonic under test, bypassing mnemonic_compare"
                                  % unparse(sub)))
     if cmp_ok != 1:
@@ -672,7 +741,9 @@ def rule_suffix_algo(ctx):
     # 2. the all-mnemonics branch recurses over every useful mnemonic
     rec = [s for s in walk_shallow(fi.node) if isinstance(s, ast.Call) and isinstance(s.func, ast.Attribute)
            and s.func.attr == "assign_duplicate_suffixes"]
-    if not rec:
+    if not rec and flat_all:
+        pass      # flat form: the no-argument case loops over the useful mnemonics of all items itself
+    elif not rec:
         problems.append((fi.node, "the no-argument form no longer renumbers every mnemonic"))
     else:
         lp = enclosing(rec[0], (ast.For,))
